@@ -63,10 +63,10 @@ reg("C05",
 
 reg("C06",
     technique="runtime differential monitor: batched result at each position vs the same call on the extracted spectrum; perturbation monitor (replace one spectrum, all other positions bit-identical); Dataset-accessor vs efth-accessor identity",
-    level_text="For datasets with 0-3 leading dimensions (time, site, lat, lon, part; any order, spectral dims not necessarily last) whose neighbouring spectra are deliberately very different, the real accessor result at sampled positions is compared with the result of the same call on that single spectrum with its own wind/depth; one spectrum (and its wind/depth) is then replaced and every other position must be bit-identical; the Dataset accessor must return an identical object. fit_jonswap / fit_gaussian are run on stacks mixing converging, non-converging (very narrow), two-peaked, noisy, single-bin and empty spectra: every position must equal (NaN pattern included) the fit of that spectrum alone, the reversed stack must give the reversed result and replacing one spectrum must leave the others bit-identical. Held = on the executions observed.",
+    level_text="For datasets with 0-3 leading dimensions (time, site, lat, lon, part; any order, spectral dims not necessarily last) whose neighbouring spectra are deliberately very different, the real accessor result at sampled positions is compared with the result of the same call on that single spectrum with its own wind/depth; one spectrum (and its wind/depth) is then replaced and every other position must be bit-identical; the Dataset accessor must return an identical object, also after the Dataset has been edited in place (ds.coords[dir|freq] = ..., ds[dir] = ..., ds[efth] = ...). fit_jonswap / fit_gaussian are run on stacks mixing converging, non-converging (very narrow), two-peaked, noisy, single-bin and empty spectra: every position must equal (NaN pattern included) the fit of that spectrum alone, the reversed stack must give the reversed result and replacing one spectrum must leave the others bit-identical. Held = on the executions observed.",
     level_note="Trusted: xarray isel/loc for extracting/replacing positions; tolerances 1e-12 (float64) / 2e-6 (float32) for reductions, bit equality for the perturbation monitor. hmax is excluded as the statement says. Discrete ties and cancellation-prone widths are inconclusive.",
     rule="case = (operation x dtype x set of leading dims x spectral-dims-last or mixed) for each of the three monitors; distinct = distinct keys; non-trivial = dataset has >= 1 leading dim with differing spectra (positions compared: up to 12 per op)",
-    must_observe=["single_vs_batched", "perturbation", "dataset_accessor", "fit_single_vs_batched", "fit_order", "fit_perturbation"],
+    must_observe=["single_vs_batched", "perturbation", "dataset_accessor", "fit_single_vs_batched", "fit_order", "fit_perturbation", "dataset_accessor_after_edit"],
     must_note=["fit_nan_positions", "fit_converged_positions"])
 
 reg("C07", asan=True, crash_is_violation=True,
